@@ -354,6 +354,23 @@ class CallGraph:
                 cs.targets, cs.kind = [tf], "resolved"
                 return cs
             if g is not None:  # a local variable / parameter holding a callable
+                if name in g.params() and not self._assigned_in(name, g):
+                    ts = self._param_callables(name, g)
+                    if ts is not None:
+                        cs.targets, cs.kind = ts, "resolved"
+                        cs.ext = "param:" + name
+                        return cs
+                cds = self._class_dict(name, f)
+                if cds:
+                    # name = TABLE[key] with TABLE a dict literal of classes: a constructor call
+                    ts = []
+                    for ci in cds:
+                        for mn in ("__init__", "__new__"):
+                            m_ = self.t.find_method(ci, mn)
+                            if m_ is not None and m_ not in ts:
+                                ts.append(m_)
+                    cs.targets, cs.kind, cs.ext = ts, "resolved", "classdict:" + name
+                    return cs
                 cs.kind = "dynamic"
                 return cs
             ci = self._class_visible(name, f)
@@ -409,6 +426,48 @@ class CallGraph:
             return cs
         cs.kind = "dynamic"
         return cs
+
+    def _param_callables(self, name: str, g: Func) -> Optional[List[Func]]:
+        """Parameter `name` of g is called inside g (or a closure of g).  If every call site of g in the tree
+        passes a class or a function of the repo for it, the call is resolved to those constructors/functions."""
+        idx_all = self.__dict__.setdefault("_calls_by_name", None)
+        if idx_all is None:
+            idx_all = {}
+            for h in self.t.funcs:
+                for n in h.own_nodes():
+                    if isinstance(n, ast.Call):
+                        cn = n.func.attr if isinstance(n.func, ast.Attribute) else (n.func.id if isinstance(n.func, ast.Name) else None)
+                        if cn:
+                            idx_all.setdefault(cn, []).append((n, h))
+            self.__dict__["_calls_by_name"] = idx_all
+        if len(self.t.funcs_named(g.name)) != 1:
+            return None
+        params = [a.arg for a in g.node.args.args]
+        pos = params.index(name) - (1 if g.cls is not None and params and params[0] in ("self", "cls") else 0)
+        out: List[Func] = []
+        sites = idx_all.get(g.name, [])
+        if not sites:
+            return None
+        for call, h in sites:
+            a = None
+            if 0 <= pos < len(call.args):
+                a = call.args[pos]
+            for kw in call.keywords:
+                if kw.arg == name:
+                    a = kw.value
+            if not isinstance(a, ast.Name):
+                return None
+            ci = self._class_visible(a.id, h)
+            if ci is not None:
+                init = self.t.find_method(ci, "__init__")
+                if init is not None:
+                    out.append(init)
+                continue
+            tf = self._lookup_name_func(a.id, h) or self.t.resolve_function_name(h.module, a.id)
+            if tf is None:
+                return None
+            out.append(tf)
+        return list({id(x): x for x in out}.values())
 
     def _fn_level_import(self, head: str, f: Func) -> bool:
         key = (id(f), head)
